@@ -80,7 +80,7 @@ pub fn classify(path: &Path) -> FileClass {
         FileClass::Wal
     } else if name.ends_with(".rdb") {
         FileClass::Table
-    } else if name.ends_with(".dbtmp") {
+    } else if name.ends_with(".dbtemp") {
         FileClass::Temp
     } else if name == "wal" || name == "data" || path.extension().is_none() {
         FileClass::Dir
@@ -276,6 +276,15 @@ impl SimFs {
     /// Mark subsequent calls as made by an oracle (1) or by the workload (0).
     pub fn set_tag(&self, tag: u8) {
         self.inner.lock().unwrap().tag = tag;
+    }
+
+    /// Harness-side truncation of a file (models a writer that stopped; not a RainDB call, so it is
+    /// neither a scheduling point nor part of the call stream).
+    pub fn harness_truncate(&self, path: &Path, len: usize) {
+        let mut g = self.inner.lock().unwrap();
+        if let Some(f) = g.st.file_mut(path) {
+            f.truncate(len);
+        }
     }
 
     pub fn arm(&self, fault: FaultSpec) {
